@@ -35,13 +35,14 @@ def cases(rng, tier, Case):
                      "<div>\n" + body + "\n</div>", "    " + body.replace("\n", "\n    "), "# " + "w" * min(total, 4000)]
     for d in docs:
         d = d.replace("\r\n", "\n").replace("\r", "\n")
+        cmp_ = len(d) <= 4200          # the extracted model is too slow on documents of tens of kilobytes: oracle only
         cfg = rng.choice(["CsW", "CsW", "CsWS", mdgen.gen_cfg(rng, forbid="S"), mdgen.gen_cfg(rng)])
         g = hx(d) + cfg
-        res.append(Case("parse %s 100 R %s" % (cfg, hx(d)), "lf", {"g": g, "role": "base", "src": hx(d)}))
-        res.append(Case("parse %s 100 R %s" % (cfg, hx(d.replace("\n", "\r\n"))), "crlf", {"g": g, "role": "crlf", "src": hx(d)}))
-        res.append(Case("parse %s 100 R %s" % (cfg, hx(d.replace("\n", "\r"))), "cr", {"g": g, "role": "cr", "src": hx(d)}))
+        res.append(Case("parse %s 100 R %s" % (cfg, hx(d)), "lf", {"g": g, "role": "base", "src": hx(d)}, compare=cmp_))
+        res.append(Case("parse %s 100 R %s" % (cfg, hx(d.replace("\n", "\r\n"))), "crlf", {"g": g, "role": "crlf", "src": hx(d)}, compare=cmp_))
+        res.append(Case("parse %s 100 R %s" % (cfg, hx(d.replace("\n", "\r"))), "cr", {"g": g, "role": "cr", "src": hx(d)}, compare=cmp_))
         if not d.endswith("\n"):
-            res.append(Case("parse %s 100 R %s" % (cfg, hx(d + "\n")), "final", {"g": g, "role": "final", "src": hx(d)}))
+            res.append(Case("parse %s 100 R %s" % (cfg, hx(d + "\n")), "final", {"g": g, "role": "final", "src": hx(d)}, compare=cmp_))
     return res
 
 
